@@ -475,6 +475,18 @@ def run(rep, rng, tier):
     lap('generation+implementation (since start %.1fs)' % (time.time() - rep.t0))
     rep.correspond('model.K_C13', 'chk_series', deltas + pseudos + shifts, describe='report_series (%s)', max_cases=3000)
     lap('chk_series n=%d' % len(deltas + pseudos + shifts))
+    # fixed witness of the known finding (always runs): with cut_off > 0 a peak below the cut-off is replaced by the ABSOLUTE value
+    # 1e-14, so joint scaling of record and reference amplitude is not exact for records of tiny amplitude
+    Xw = np.array([0, 1e-13, -5e-16, 1e-13, -5e-16, 1e-13])
+    site_w = 'calc_n_cyc_array_w_power_law[joint-scaling, record amplitude 1e-13, cut_off>0]'
+    args_w = {'values': Xw.tolist(), 'a_ref': 1e-13, 'b': 1.0, 'cut_off': 0.01, 'scale': 1e13}
+    rw1 = guarded(im.calc_n_cyc_array_w_power_law, Xw.copy(), 1e-13, 1.0, cut_off=0.01)
+    rw2 = guarded(im.calc_n_cyc_array_w_power_law, Xw * 1e13, 1.0, 1.0, cut_off=0.01)
+    if isinstance(rw1, ImplError) or isinstance(rw2, ImplError):
+        rep.violation(site_w, {'function': site_w, 'args': args_w, 'impl_error': str(rw1 if isinstance(rw1, ImplError) else rw2)})
+    else:
+        rels.append(Case('PRel (%s, %s, %s, %s)' % (q(1), qlist(np.ravel(rw1).tolist()), qlist(np.ravel(rw2).tolist()), q(RTOL)),
+                         {'function': site_w, 'args': args_w, 'impl': {'n_cyc': np.ravel(rw1).tolist(), 'n_cyc_scaled': np.ravel(rw2).tolist()}}, site_w, nontrivial=True, klass='rel'))
     rep.correspond('model.K_C13', 'chk_power', ncycs + amps + combs + gms + rels + monos, describe='report_power (%s)', max_cases=1000)
     lap('chk_power n=%d' % len(ncycs + amps + combs + gms + rels + monos))
     kern.run(rep)
